@@ -1,38 +1,897 @@
 """C04 — all tensor representations agree on values and bytes (DESIGN.md section 5, C04).
 
-Correspondence: `_type_casting.pack_*/unpack_*` and `tobytes()` of each representation vs the Lean
-model `IrVerif.Pack` (driver commands pack.*).  Oracle: representations agree with each other and
-with nbytes = ceil(size*bitwidth/8).
+Correspondence (model vs implementation, every run)
+  * `_type_casting.pack_*/unpack_*` vs `IrVerif.Pack` (driver commands pack.*), including buffers
+    whose length does not match the element count (the resize / drop-padding rules);
+  * the element-type tables of `_enums` (and the torch dtype map) vs the Lean literals
+    (`trepr.tables`, exhaustive);
+  * every representation of a logical tensor (dtype, dims, element bit patterns) — `Tensor` over
+    numpy arrays in several storage forms, `ir.tensor(...)`, `PackedTensor`, `TensorProtoTensor`
+    through every legal storage field (+ non-canonical but congruent integer encodings),
+    `ExternalTensor` at several offsets / at the end of the file, `LazyTensor` around each,
+    `TorchTensor`, and `deserialize_tensor(serialize_tensor(t))` — vs `IrVerif.TensorRepr`
+    (`trepr.obs`, `trepr.deserialize`): dtype, shape, nbytes, numpy() storage units, tobytes(),
+    tofile() into BytesIO, tofile() into files / buffers at a position or in append mode, and the
+    serialized proto;
+  * a stream of illegal / edge protos, external descriptors and packed buffers (model vs
+    implementation only).
+
+Oracle (the property itself on the real objects, independent of the model): declared dtype and
+shape, nbytes = ceil(size*bitwidth/8), numpy() bits = the logical bits, tobytes()/tofile bytes =
+the little-endian packed reference bytes computed by a spec-level encoder in this file AND by
+`onnx.numpy_helper.from_array`; `onnx.numpy_helper.to_array` decodes every proto involved to the
+logical bits; a write at position p changes exactly [p, p+nbytes).
 """
 from __future__ import annotations
 
+import io
 import itertools
+import os
+import re
+import struct
+import tempfile
 
 import numpy as np
 
-from harness.common import Ctx, lean_batch_parallel
+from harness.common import Ctx, Part, lean_batch_parallel, load_corpus, pmap
 
 THEOREMS = [
     "IrVerif.Pack.C04_unpack_pack4",
     "IrVerif.Pack.C04_unpack_pack2",
     "IrVerif.Pack.C04_pack4_len",
     "IrVerif.Pack.C04_pack2_len",
+    "IrVerif.Pack.C04_pack_unpack4",
+    "IrVerif.Pack.C04_pack_unpack2",
     "IrVerif.Pack.C04_le_roundtrip",
     "IrVerif.Pack.C04_nbytes",
+    "IrVerif.TensorRepr.C04_tables",
+    "IrVerif.TensorRepr.C04_field_agree",
+    "IrVerif.TensorRepr.C04_all_agree",
+    "IrVerif.TensorRepr.C04_bytes_len",
+    "IrVerif.TensorRepr.C04_tofile_at",
+    "IrVerif.TensorRepr.C04_tofile_repr",
+    "IrVerif.TensorRepr.C04_serialize_roundtrip",
 ]
 ASSUMPTIONS = [
     "elements are modelled as bit patterns; numeric meaning of floats (NaN != NaN) is not modelled",
-    "numpy view/resize semantics trusted",
+    "numpy / ml_dtypes view, astype (two's complement wrap), frombuffer, resize and tofile semantics are "
+    "modelled, not verified; they are exercised by the correspondence on every run",
+    "little-endian host (the _IS_LITTLE_ENDIAN false branches are not modelled)",
+    "the model follows the repaired code for D20 D21 D22 D44 D45 (fix: commits 90f0973 e7c61b0 98406ca 205afd1 78dfe76)",
 ]
 
+M64 = (1 << 64) - 1
+SHAPES = [[], [0], [1], [3], [5], [2, 3], [1, 1, 1, 1, 7]]
+UINT = {1: np.uint8, 2: np.uint16, 4: np.uint32, 8: np.uint64}
 
-def run(ctx: Ctx) -> None:
+
+def _prod(dims):
+    n = 1
+    for x in dims:
+        n *= x
+    return n
+
+
+def _nbytes(n, bw):
+    return (n * bw + 7) // 8
+
+
+def ref_bytes(bw: int, xs: list[int]) -> bytes:
+    """Spec-level encoder: little-endian items; sub-byte elements low bits first, zero padded."""
+    if bw >= 8:
+        return b"".join(int(x).to_bytes(bw // 8, "little") for x in xs)
+    per = 8 // bw
+    out = bytearray(_nbytes(len(xs), bw))
+    for i, x in enumerate(xs):
+        out[i // per] |= (x & ((1 << bw) - 1)) << (bw * (i % per))
+    return bytes(out)
+
+
+def units_of(arr) -> list[int]:
+    """Storage units of a numpy array (C order) as Python ints."""
+    a = np.ascontiguousarray(arr).reshape(-1)
+    isz = a.dtype.itemsize
+    if isz in UINT:
+        return [int(x) for x in a.view(UINT[isz]).tolist()]
+    if isz == 16:
+        v = a.view(np.uint64).reshape(-1, 2).tolist()
+        return [int(lo) | (int(hi) << 64) for lo, hi in v]
+    raise TypeError(f"unexpected itemsize {isz}")
+
+
+def arr_from_bits(npdt, dims, xs):
+    isz = np.dtype(npdt).itemsize
+    if isz == 16:
+        u = np.array([[x & M64, x >> 64] for x in xs], dtype=np.uint64).reshape(-1)
+    else:
+        u = np.array(xs, dtype=UINT[isz])
+    return u.view(npdt).reshape(dims)
+
+
+def signed(x: int, k: int) -> int:
+    return x - (1 << k) if x >> (k - 1) else x
+
+
+def f32_of_bits(b: int) -> float:
+    return struct.unpack("<f", struct.pack("<I", b))[0]
+
+
+def bits_of_f32(v: float) -> int:
+    return struct.unpack("<I", struct.pack("<f", v))[0]
+
+
+def f64_of_bits(b: int) -> float:
+    return struct.unpack("<d", struct.pack("<Q", b))[0]
+
+
+def bits_of_f64(v: float) -> int:
+    return struct.unpack("<Q", struct.pack("<d", v))[0]
+
+
+def proto_json(tp) -> dict:
+    """Canonical form of the data-carrying part of a TensorProto (the model's `Proto`)."""
+    import onnx
+
+    ext = None
+    if tp.data_location == onnx.TensorProto.EXTERNAL:
+        ext = {"offset": None, "length": None}
+        for e in tp.external_data:
+            if e.key in ("offset", "length"):
+                ext[e.key] = int(e.value)
+    return {
+        "k": "proto",
+        "d": int(tp.data_type),
+        "dims": [int(x) for x in tp.dims],
+        "raw": list(tp.raw_data) if tp.HasField("raw_data") else None,
+        "i32": [int(x) for x in tp.int32_data],
+        "i64": [int(x) for x in tp.int64_data],
+        "u64": [int(x) for x in tp.uint64_data],
+        "f32": [bits_of_f32(v) for v in tp.float_data],
+        "f64": [bits_of_f64(v) for v in tp.double_data],
+        "ext": ext,
+    }
+
+
+def canon_model(o: dict) -> dict:
+    """Model answer -> the canonical observation (exceptions -> "raised")."""
+
+    def r(v):
+        return "raised" if isinstance(v, dict) and "raised" in v and len(v) == 1 else v
+
+    out = {k: r(o.get(k)) for k in ("dtype", "shape", "nbytes", "numpy", "tobytes", "serialize")}
+    tf = o.get("tofile")
+    out["tofile"] = {"bytes": [], "raised": True} if r(tf) == "raised" else tf
+    if "dest" in o:
+        out["dest"] = o["dest"]  # canonicalised against the request by the caller when raised
+    return out
+
+
+DESTS = ["bytesio0", "bytesio5", "file0", "file5", "filebeyond", "append", "aplus", "wb"]
+PREFIX = bytes(0xA0 + i for i in range(10))
+
+
+def dest_request(kind: str) -> dict:
+    img = [] if kind in ("bytesio0", "wb") else list(PREFIX)
+    pos = {"bytesio0": 0, "bytesio5": 5, "file0": 0, "file5": 5, "filebeyond": 13, "append": 10, "aplus": 10, "wb": 0}[kind]
+    return {"img": img, "pos": pos, "append": kind in ("append", "aplus")}
+
+
+def run_dest(t, kind: str, workdir: str) -> dict:
+    """tofile into a destination of the given kind; returns final image, position, raised."""
+    raised = False
+    if kind.startswith("bytesio"):
+        f = io.BytesIO(b"" if kind == "bytesio0" else PREFIX)
+        f.seek(0 if kind == "bytesio0" else 5)
+        try:
+            t.tofile(f)
+        except Exception:
+            raised = True
+        return {"img": list(f.getvalue()), "pos": f.tell(), "raised": raised}
+    path = os.path.join(workdir, "dst.bin")
+    if kind != "wb":
+        with open(path, "wb") as f:
+            f.write(PREFIX)
+    mode = {"file0": "r+b", "file5": "r+b", "filebeyond": "r+b", "append": "ab", "aplus": "a+b", "wb": "wb"}[kind]
+    with open(path, mode) as f:
+        if kind in ("file5", "filebeyond"):
+            f.seek(5 if kind == "file5" else 13)
+        try:
+            t.tofile(f)
+        except Exception:
+            raised = True
+        f.flush()
+        pos = f.tell()
+    with open(path, "rb") as f:
+        img = list(f.read())
+    return {"img": img, "pos": pos, "raised": raised}
+
+
+def observe(make, dests, workdir, order: int = 0, fresh: bool = False) -> dict:
+    """All observables of one real tensor; `make()` constructs it (may raise).
+
+    The same object answers every observable (so state kept between calls is exercised); `order`
+    rotates which of numpy()/tobytes()/tofile() is asked first.  `fresh=True` (edge stream) builds a
+    new object per observable so that the answer does not depend on an earlier failed call."""
+    try:
+        t = make()
+    except Exception as e:  # constructor rejected the input
+        return {"_ctor": type(e).__name__}
+    o: dict = {}
+
+    def obj():
+        return make() if fresh else t
+
+    try:
+        o["dtype"] = int(t.dtype)
+    except Exception:
+        o["dtype"] = "raised"
+    try:
+        o["shape"] = [int(x) for x in t.shape.numpy()]
+    except Exception:
+        o["shape"] = "raised"
+    try:
+        o["nbytes"] = int(t.nbytes)
+    except Exception:
+        o["nbytes"] = "raised"
+
+    def do_numpy():
+        a = None
+        try:
+            a = obj().numpy()
+            o["numpy"] = units_of(a)
+            o["_npdtype"] = a.dtype.name
+            o["_npshape"] = [int(x) for x in a.shape]
+        except Exception as e:
+            o["numpy"] = "raised"
+            o["_numpy_exc"] = type(e).__name__
+
+    def do_tobytes():
+        try:
+            o["tobytes"] = list(obj().tobytes())
+        except Exception as e:
+            o["tobytes"] = "raised"
+            o["_tobytes_exc"] = type(e).__name__
+
+    def do_tofile():
+        b = io.BytesIO()
+        try:
+            obj().tofile(b)
+            o["tofile"] = {"bytes": list(b.getvalue()), "raised": False}
+        except Exception as e:
+            o["tofile"] = {"bytes": list(b.getvalue()), "raised": True}
+            o["_tofile_exc"] = type(e).__name__
+
+    steps = [do_numpy, do_tobytes, do_tofile]
+    k = order % 3
+    for st in steps[k:] + steps[:k]:
+        st()
+    o["dest"] = {k: run_dest(obj(), k, workdir) for k in dests}
+    try:
+        from onnx_ir import serde
+
+        tp = serde.serialize_tensor(obj())
+        o["serialize"] = proto_json(tp)
+        o["_proto"] = tp
+    except Exception as e:
+        o["serialize"] = "raised"
+        o["_serialize_exc"] = type(e).__name__
+    rel = getattr(t, "release", None)
+    if callable(rel):
+        try:
+            rel()
+        except BufferError:
+            pass
+    return o
+
+
+# --------------------------------------------------------------------------- representations
+
+
+def int32_field(d, bw, xs, alt, salt):
+    """ONNX spec encoding of the elements in int32_data (alt: congruent non-canonical values)."""
+    name = d.name
+    if bw in (2, 4):
+        ys = list(ref_bytes(bw, xs))
+        if alt:  # the packed byte as a signed int8 value / shifted by 256
+            ys = [signed(y, 8) if (i + salt) % 2 else y + 256 for i, y in enumerate(ys)]
+        return ys
+    if bw == 32:
+        return [signed(x, 32) for x in xs]
+    sgn = name in ("INT8", "INT16")
+    ys = [signed(x, bw) if sgn else x for x in xs]
+    if alt:
+        ys = [(x if sgn else signed(x, bw)) if (i + salt) % 2 else y + (1 << bw) * ((i + salt) % 3 - 1) for i, (x, y) in enumerate(zip(xs, ys))]
+    return ys
+
+
+def build_reprs(ir, d, dims, xs, idx, workdir, torch_ok):
+    """Yield (name, make, model_json, legal) for every representation of the logical tensor."""
+    import ml_dtypes
+    import onnx
+    from onnx_ir import serde
+
+    bw = d.bitwidth
+    n = len(xs)
+    code = int(d)
+    npdt = d.numpy()
+    shape = ir.Shape(dims)
+    rb = ref_bytes(bw, xs)
+    out = []
+
+    def add(name, make, model, legal=True):
+        out.append((name, make, model, legal))
+
+    # ---- array-backed Tensor
+    native = arr_from_bits(npdt, dims, xs)
+    add("array", lambda: ir.Tensor(native, dtype=d), {"k": "array", "d": code, "dims": dims, "elems": units_of(native)})
+    add("array-nodtype", lambda: ir.Tensor(native), {"k": "array", "d": code, "dims": dims, "elems": units_of(native)})
+    add("ir.tensor(array)", lambda: ir.tensor(native, dtype=d), {"k": "array", "d": code, "dims": dims, "elems": units_of(native)})
+    if d.name in ("BFLOAT16", "FLOAT8E4M3FN", "FLOAT8E4M3FNUZ", "FLOAT8E5M2", "FLOAT8E5M2FNUZ", "FLOAT8E8M0", "UINT4", "FLOAT4E2M1", "UINT2", "INT4", "INT2"):
+        u = np.array(xs, dtype=np.uint16 if bw == 16 else np.uint8).reshape(dims)
+        add("array-uintbits", lambda: ir.Tensor(u, dtype=d), {"k": "array", "d": code, "dims": dims, "elems": units_of(u)})
+    if d.name in ("INT4", "INT2"):
+        s8 = np.array([signed(x, bw) for x in xs], dtype=np.int8).reshape(dims)  # sign-extended storage
+        add("array-int8signext", lambda: ir.Tensor(s8, dtype=d), {"k": "array", "d": code, "dims": dims, "elems": units_of(s8)})
+    if len(dims) >= 2:
+        # non-contiguous storage: a transposed Fortran-ordered buffer with the same logical content
+        nc = np.asfortranarray(native)
+        add("array-fortran", lambda: ir.Tensor(nc, dtype=d), {"k": "array", "d": code, "dims": dims, "elems": units_of(nc)})
+    if dims == []:
+        sc = native[()]
+        add("array-npscalar", lambda: ir.Tensor(sc, dtype=d), {"k": "array", "d": code, "dims": dims, "elems": units_of(native)})
+    if d.is_integer() and n <= 8:
+        vals = [signed(x, bw) if d.is_signed() else x for x in xs]
+        nested = np.array(vals, dtype=object).reshape(dims).tolist()
+        add("ir.tensor(list)", lambda: ir.tensor(nested, dtype=d), {"k": "array", "d": code, "dims": dims, "elems": units_of(native)})
+
+    # ---- PackedTensor
+    if bw in (2, 4):
+        pk = np.frombuffer(rb, dtype=np.uint8).copy()
+        add("packed", lambda: ir.PackedTensor(pk, d, shape=dims), {"k": "packed", "d": code, "dims": dims, "raw": list(rb)})
+        pk8 = pk.view(np.int8)
+        add("packed-int8", lambda: ir.PackedTensor(pk8, d, shape=ir.Shape(dims)), {"k": "packed", "d": code, "dims": dims, "raw": list(rb)})
+
+    # ---- proto-backed through every legal field
+    def tp_base():
+        tp = onnx.TensorProto()
+        tp.name = "t"
+        tp.data_type = code
+        tp.dims.extend(dims)
+        return tp
+
+    protos = []
+    tp = tp_base()
+    tp.raw_data = rb
+    protos.append(("raw_data", tp))
+    nm = d.name
+    if nm in ("BFLOAT16", "BOOL", "FLOAT16", "FLOAT4E2M1", "FLOAT8E4M3FN", "FLOAT8E4M3FNUZ", "FLOAT8E5M2", "FLOAT8E5M2FNUZ",
+              "FLOAT8E8M0", "INT16", "INT32", "INT2", "INT4", "INT8", "UINT16", "UINT2", "UINT4", "UINT8"):
+        tp = tp_base()
+        tp.int32_data.extend(int32_field(d, bw, xs, False, idx))
+        protos.append(("int32_data", tp))
+        if bw < 32 and nm != "BOOL":
+            tp = tp_base()
+            tp.int32_data.extend(int32_field(d, bw, xs, True, idx))
+            protos.append(("int32_data-alt", tp))
+    if nm == "INT64":
+        tp = tp_base()
+        tp.int64_data.extend(signed(x, 64) for x in xs)
+        protos.append(("int64_data", tp))
+    if nm in ("UINT64", "UINT32"):
+        tp = tp_base()
+        tp.uint64_data.extend(xs)
+        protos.append(("uint64_data", tp))
+        if nm == "UINT32":
+            tp = tp_base()
+            tp.uint64_data.extend(x + (((i + idx) % 3) << 32) for i, x in enumerate(xs))
+            protos.append(("uint64_data-alt", tp))
+    if nm in ("FLOAT", "COMPLEX64"):
+        parts = xs if nm == "FLOAT" else [p for x in xs for p in (x & 0xFFFFFFFF, x >> 32)]
+        tp = tp_base()
+        tp.float_data.extend(f32_of_bits(p) for p in parts)
+        if [bits_of_f32(v) for v in tp.float_data] == parts:  # signalling NaNs cannot be carried by the Python API
+            protos.append(("float_data", tp))
+    if nm in ("DOUBLE", "COMPLEX128"):
+        parts = xs if nm == "DOUBLE" else [p for x in xs for p in (x & M64, x >> 64)]
+        tp = tp_base()
+        tp.double_data.extend(f64_of_bits(p) for p in parts)
+        if [bits_of_f64(v) for v in tp.double_data] == parts:
+            protos.append(("double_data", tp))
+    for fname, tp in protos:
+        add(f"proto:{fname}", (lambda tp=tp: serde.TensorProtoTensor(tp)), proto_json(tp))
+    add("ir.tensor(proto)", (lambda tp=protos[idx % len(protos)][1]: ir.tensor(tp)), proto_json(protos[idx % len(protos)][1]))
+
+    # ---- external at several offsets, with and without trailing bytes
+    combos = [(0, 0), (1, 0), (7, 3), (0, 3), (5, 0)]
+    for j, (pre, post) in enumerate(combos):
+        if (j + idx) % 5 >= 3 and not (post == 0 and bw == 2):  # rotate, always keep 2-bit end-of-file
+            continue
+        content = bytes((37 * i + 11) % 251 for i in range(pre)) + rb + bytes((91 * i + 5) % 253 for i in range(post))
+        fn = f"ext_{j}.bin"
+        with open(os.path.join(workdir, fn), "wb") as f:
+            f.write(content)
+        off = None if (pre == 0 and (idx + j) % 2) else pre
+        ln = None if (idx + j) % 3 == 0 else len(rb)
+        add(
+            f"external:pre{pre}post{post}",
+            (lambda fn=fn, off=off, ln=ln: ir.ExternalTensor(fn, off, ln, d, shape=ir.Shape(dims), name="x", base_dir=workdir)),
+            {"k": "external", "d": code, "dims": dims, "offset": off, "length": ln, "file": list(content)},
+        )
+    # the external proto form through deserialize_tensor
+    content = b"\x07\x09" + rb
+    with open(os.path.join(workdir, "ext_p.bin"), "wb") as f:
+        f.write(content)
+    tp = tp_base()
+    tp.data_location = onnx.TensorProto.EXTERNAL
+    for k, v in (("location", "ext_p.bin"), ("offset", "2"), ("length", str(len(rb)))):
+        e = tp.external_data.add()
+        e.key, e.value = k, v
+    add(
+        "deserialize(external proto)",
+        (lambda tp=tp: serde.deserialize_tensor(tp, base_path=workdir)),
+        {"k": "external", "d": code, "dims": dims, "offset": 2, "length": len(rb), "file": list(content)},
+    )
+
+    # ---- torch adapter
+    if torch_ok:
+        import torch
+
+        from onnx_ir import tensor_adapters
+
+        try:
+            tdt = tensor_adapters.to_torch_dtype(d)
+        except Exception:
+            tdt = None
+        if tdt is not None:
+            if nm == "BFLOAT16" or nm.startswith("FLOAT8") or bw < 8:
+                base_np = np.array(xs, dtype=np.uint16 if bw == 16 else np.uint8).reshape(dims)
+                conv = lambda t: t.view(tdt)
+            else:
+                base_np = arr_from_bits(npdt, dims, xs).copy()
+                conv = lambda t: t
+            tt = conv(torch.from_numpy(base_np))
+            tm = {"k": "torch", "d": code, "dims": dims, "elems": [int(x) for x in xs]}
+            add("torch", lambda: tensor_adapters.TorchTensor(tt), tm)
+            add("ir.tensor(torch)", lambda: ir.tensor(tt), tm)
+            if len(dims) == 2:
+                ttT = conv(torch.from_numpy(np.asfortranarray(base_np)))  # same logical content, column-major memory
+                add("torch-strided", lambda: tensor_adapters.TorchTensor(ttT), tm)
+
+    # ---- LazyTensor around a rotating selection of the above
+    base_reprs = list(out)
+    for j, (name, make, model, _legal) in enumerate(base_reprs):
+        if (j + idx) % 3 == 0 or name.startswith(("external:pre0post0", "packed", "torch")) and (j + idx) % 2 == 0:
+            cache = bool((j + idx) % 2)
+            add(
+                f"lazy>{name}",
+                (lambda make=make, cache=cache: (lambda inner: ir.LazyTensor(lambda: inner, dtype=d, shape=ir.Shape(dims), cache=cache))(make())),
+                {"k": "lazy", "d": code, "dims": dims, "inner": model},
+            )
+    return out
+
+
+def kind_of(name: str) -> str:
+    k = name.split(":")[0]
+    k = k.replace("ir.tensor(array)", "array").replace("ir.tensor(list)", "array").replace("ir.tensor(torch)", "torch")
+    k = k.replace("ir.tensor(proto)", "proto").replace("deserialize(external proto)", "external")
+    for p in ("array", "packed", "torch"):
+        k = re.sub(rf"{p}-[a-z0-9]+", p, k)
+    return k
+
+
+def oracle(ir, name, d, dims, xs, o, dests, fails, torch_ok):
+    """The property itself on the real object `o` (observations) for a LEGAL representation."""
+    from onnx import numpy_helper
+
+    bw = d.bitwidth
+    n = len(xs)
+    rb = list(ref_bytes(bw, xs))
+    kind = kind_of(name)
+    sz = "size0" if n == 0 else "n>0"
+
+    def fail(obs, what, extra=""):
+        fails.append((f"{kind}.{obs}:bw{bw}:{sz}:{what}{extra}", obs, f"{name} {d.name}{dims}: {obs} {what}"))
+
+    if "_ctor" in o:
+        fail("ctor", "raised")
+        return
+    if o["dtype"] != int(d):
+        fail("dtype", "wrong")
+    if o["shape"] != dims:
+        fail("shape", "wrong")
+    if o["nbytes"] != _nbytes(n, bw):
+        fail("nbytes", "raised" if o["nbytes"] == "raised" else "wrong")
+    if o["numpy"] == "raised":
+        fail("numpy", "raised")
+    else:
+        if [u & ((1 << bw) - 1) for u in o["numpy"]] != [int(x) for x in xs]:
+            fail("numpy", "wrong-bits")
+        if o["_npshape"] != dims:
+            fail("numpy", "wrong-shape")
+        if o["_npdtype"] != d.numpy().name:
+            fail("numpy", "wrong-npdtype")
+    if o["tobytes"] == "raised":
+        fail("tobytes", "raised")
+    elif o["tobytes"] != rb:
+        fail("tobytes", "wrong-bytes" if len(o["tobytes"]) == len(rb) else "wrong-len")
+    if o["tofile"]["raised"]:
+        fail("tofile", "raised")
+    elif o["tofile"]["bytes"] != rb:
+        fail("tofile", "wrong-bytes")
+    for dk, res in o["dest"].items():
+        rq = dest_request(dk)
+        p = len(rq["img"]) if rq["append"] else rq["pos"]
+        if rb:
+            want = rq["img"][:p] + [0] * (p - len(rq["img"])) + rb + rq["img"][p + len(rb):]
+        else:
+            want = rq["img"]
+        if res["raised"]:
+            fail("dest", "raised", f":dest={dk}")
+        elif res["img"] != want or res["pos"] != p + len(rb):
+            fail("dest", "wrong-image", f":dest={dk}")
+    if o["serialize"] == "raised":
+        fail("serialize", "raised")
+    elif kind_of(name).split(">")[-1] != "external":
+        # the ONNX reference decoder reads the repo's serialized proto back to the logical bits
+        try:
+            back = numpy_helper.to_array(o["_proto"])
+            if [u & ((1 << bw) - 1) for u in units_of(back)] != [int(x) for x in xs] or list(back.shape) != dims:
+                fail("serialize", "wrong-bytes", ":onnx-reference-decodes-differently")
+        except Exception as e:  # the reference could not decode it
+            fail("serialize", "wrong-bytes", f":onnx-reference-raised-{type(e).__name__}")
+
+
+_TORCH = None
+
+
+def torch_available() -> bool:
+    global _TORCH
+    if _TORCH is None:
+        try:
+            import torch  # noqa: F401
+
+            _TORCH = True
+        except Exception:
+            _TORCH = False
+    return _TORCH
+
+
+def work_logical(item: dict) -> list:
+    """Worker: one logical tensor -> records for every representation."""
+    import warnings
+
+    warnings.filterwarnings("ignore")
+    import onnx_ir as ir
+    from onnx import numpy_helper
+    from onnx_ir import serde
+
+    d = ir.DataType(item["d"])
+    dims, xs, idx = item["dims"], item["xs"], item["idx"]
+    recs = []
+    torch_ok = torch_available()
+    with tempfile.TemporaryDirectory(prefix="c04-") as workdir:
+        reprs = build_reprs(ir, d, dims, xs, idx, workdir, torch_ok)
+        # ONNX reference encoder agrees with the spec-level encoder of this file
+        try:
+            ref = numpy_helper.from_array(arr_from_bits(d.numpy(), dims, xs), "x")
+            ref_ok = list(ref.raw_data) == list(ref_bytes(d.bitwidth, xs)) and ref.data_type == int(d)
+        except Exception:
+            ref_ok = None  # element type unknown to the installed onnx
+        for j, (name, make, model, legal) in enumerate(reprs):
+            dests = [DESTS[(idx + j) % len(DESTS)], DESTS[(idx + 3 * j + 4) % len(DESTS)]]
+            if name.startswith(("external", "lazy>external")) and "append" not in dests and (idx + j) % 2 == 0:
+                dests[1] = "append"
+            dests = sorted(set(dests))
+            o = observe(make, dests, workdir, order=idx + j)
+            fails: list = []
+            if legal:
+                oracle(ir, name, d, dims, xs, o, dests, fails, torch_ok)
+                if ref_ok is False and j == 0:
+                    fails.append((f"reference.encode:bw{d.bitwidth}", "reference", "onnx.numpy_helper.from_array differs from the spec-level encoder"))
+            # typed-field protos built by this file are legal: the ONNX reference decodes them to the same bits
+            if name.startswith("proto:") and "alt" not in name:
+                try:
+                    back = numpy_helper.to_array(make().raw)
+                    if [u & ((1 << d.bitwidth) - 1) for u in units_of(back)] != [int(x) for x in xs]:
+                        fails.append((f"reference.decode:{name}", "reference", "onnx.numpy_helper.to_array decodes the generated proto differently"))
+                except Exception:
+                    pass
+            reqs = [{"m": "trepr.obs", "repr": model, "dest": dest_request(k)} for k in dests] or [{"m": "trepr.obs", "repr": model}]
+            rt = None
+            if "_proto" in o and not name.startswith("lazy") and (idx + j) % 2 == 0:
+                # deserialize(serialize(t)) observed again (a proto- or external-backed tensor)
+                tp = o["_proto"]
+                file = model.get("file") if model["k"] == "external" else None
+                o2 = observe(lambda: serde.deserialize_tensor(tp, base_path=workdir), [], workdir)
+                f2: list = []
+                if legal:
+                    oracle(ir, "roundtrip>" + name, d, dims, xs, o2, [], f2, torch_ok)
+                rt = {"req": {"m": "trepr.deserialize", "proto": proto_json(tp), "file": file}, "impl": strip(o2), "fails": f2}
+            recs.append({"name": name, "item": item, "reqs": reqs, "dests": dests, "impl": strip(o), "fails": fails, "rt": rt, "legal": legal})
+    return recs
+
+
+def strip(o: dict) -> dict:
+    return {k: v for k, v in o.items() if k != "_proto"}
+
+
+# --------------------------------------------------------------------------- generators
+
+SPECIAL = {
+    16: [0, 1, 0x7FFF, 0x8000, 0xFFFF, 0x7C00, 0xFC00, 0x7E00, 0x7D00, 0x7F80, 0xFF80, 0x7FC0, 0x7FA0, 0x3C00, 0x3F80, 0x00FF, 0xFF00],
+    32: [0, 1, 0x7FFFFFFF, 0x80000000, 0xFFFFFFFF, 0x7F800000, 0xFF800000, 0x7FC00000, 0x7FA00000, 0x7F800001, 0x3F800000, 0x00800000, 0x007FFFFF, 0x000000FF, 0xFF000000, 0x01020304],
+    64: [0, 1, (1 << 63) - 1, 1 << 63, M64, 0x7FF0000000000000, 0xFFF0000000000000, 0x7FF8000000000000, 0x7FF4000000000000, 0x7FF0000000000001,
+         0x3FF0000000000000, 0x0010000000000000, 0x000FFFFFFFFFFFFF, 0x00000000FFFFFFFF, 0xFFFFFFFF00000000, 0x0102030405060708],
+}
+
+
+def gen_logical(ctx: Ctx, ir) -> list[dict]:
+    """Logical tensors: every dtype x every shape; all bit patterns of <= 8-bit types are placed."""
+    items = []
+    rng = ctx.rng
+    dtypes = [d for d in ir.DataType if d.name not in ("UNDEFINED", "STRING")]
+    total = sum(_prod(s) for s in SHAPES)
+    for d in dtypes:
+        bw = d.bitwidth
+        if d.name == "BOOL":
+            pool_rounds = [[0, 1] * 12, [1, 0, 0, 1, 1, 1, 0] * 4]
+        elif bw <= 8:
+            allp = list(range(1 << bw))
+            rounds = (len(allp) + total - 1) // total
+            seq = (allp * (rounds * total // len(allp) + 1))[: rounds * total]
+            pool_rounds = [seq[i : i + total] for i in range(0, rounds * total, total)]
+            for _ in range(ctx.pick(1, 6)):
+                pool_rounds.append([rng.randrange(1 << bw) for _ in range(total)])
+        else:
+            half = bw if bw <= 64 else 64
+            def pat(kind):
+                if bw <= 64 and d.name != "COMPLEX64":
+                    return rng.choice(SPECIAL[bw]) if kind == "special" else rng.getrandbits(bw)
+                h = 32 if d.name == "COMPLEX64" else 64
+                a = rng.choice(SPECIAL[h]) if kind == "special" or rng.random() < 0.3 else rng.getrandbits(h)
+                b = rng.choice(SPECIAL[h]) if kind == "special" or rng.random() < 0.3 else rng.getrandbits(h)
+                return a | (b << h)
+            sp = SPECIAL[bw] if (bw <= 64 and d.name != "COMPLEX64") else None
+            pool_rounds = []
+            if sp:
+                seq = sp * 3
+                pool_rounds.append(seq[:total])
+                pool_rounds.append(seq[5 : 5 + total])
+            pool_rounds.append([pat("special") for _ in range(total)])
+            for _ in range(ctx.pick(2, 10)):
+                pool_rounds.append([pat("random") for _ in range(total)])
+        for r, pool in enumerate(pool_rounds):
+            k = 0
+            for s in SHAPES:
+                n = _prod(s)
+                xs = pool[k : k + n]
+                k += n
+                if len(xs) < n:
+                    xs = xs + [0] * (n - len(xs))
+                items.append({"d": int(d), "dims": list(s), "xs": xs, "round": r})
+    return items
+
+
+def gen_edge(ctx: Ctx, ir) -> list[dict]:
+    """Illegal / edge inputs for model-vs-implementation comparison only (no oracle)."""
+    rng = ctx.rng
+    edge = []
+    codes = [int(d) for d in ir.DataType]
+    for _ in range(ctx.pick(1500, 12000)):
+        kind = rng.choice(["proto", "proto", "proto", "external", "packed", "torch"])
+        d = rng.choice(codes + [27, 40])
+        dims = rng.choice([[], [0], [1], [2], [3], [5], [2, 3], [4], [7]])
+        n = _prod(dims)
+        if kind == "proto":
+            p = {"k": "proto", "d": d, "dims": dims, "raw": None, "i32": [], "i64": [], "u64": [], "f32": [], "f64": [], "ext": None}
+            nf = rng.choice([0, 1, 1, 1, 2])
+            if d == 8:
+                d = p["d"] = 1  # string tensors are outside the model
+            for f in rng.sample(["raw", "i32", "i64", "u64", "f32", "f64"], nf):
+                ln = rng.choice([n, n, max(0, n - 1), n + 1, 2 * n, (n + 1) // 2, (n + 3) // 4, 0, 1, 8 * n, 4 * n])
+                if f == "raw":
+                    p["raw"] = [rng.randrange(256) for _ in range(ln)]
+                elif f == "i32":
+                    p["i32"] = [rng.choice([rng.randrange(-(1 << 31), 1 << 31), rng.randrange(-3, 300)]) for _ in range(ln)]
+                elif f == "i64":
+                    p["i64"] = [rng.choice([rng.randrange(-(1 << 63), 1 << 63), rng.randrange(-3, 3)]) for _ in range(ln)]
+                elif f == "u64":
+                    p["u64"] = [rng.choice([rng.getrandbits(64), rng.randrange(0, 5)]) for _ in range(ln)]
+                elif f == "f32":
+                    p["f32"] = [rng.choice([0x3F800000, 0x7F800000, 0, 0x40490FDB, 0xBF000000]) for _ in range(ln)]
+                else:
+                    p["f64"] = [rng.choice([0x3FF0000000000000, 0x7FF0000000000000, 0, 0x400921FB54442D18]) for _ in range(ln)]
+            if rng.random() < 0.06:
+                p["ext"] = {"offset": rng.choice([None, 0, 4]), "length": rng.choice([None, 4])}
+            edge.append({"edge": "proto", "repr": p})
+        elif kind == "external":
+            if d > 26 or d in (0, 8):
+                d = rng.choice([1, 2, 21, 22, 25, 26, 10, 7, 14])
+            bw = ir.DataType(d).bitwidth
+            nb = _nbytes(n, bw)
+            flen = rng.choice([0, nb, nb, nb + 3, max(0, nb - 1), nb + 8, 1])
+            file = None if rng.random() < 0.05 else [rng.randrange(256) for _ in range(flen)]
+            off = rng.choice([None, 0, 0, 1, 3, flen, flen + 1])
+            ln = rng.choice([None, None, nb, nb, nb + 1, max(0, nb - 1), 0])
+            edge.append({"edge": "external", "repr": {"k": "external", "d": d, "dims": dims, "offset": off, "length": ln, "file": file}})
+        elif kind == "packed":
+            if d > 26:
+                d = 21
+            bw = ir.DataType(d).bitwidth if d not in (0, 8) else 8
+            nb = _nbytes(n, bw if bw in (2, 4) else 4)
+            ln = rng.choice([nb, nb, nb, nb + 1, max(0, nb - 1), n])
+            edge.append({"edge": "packed", "repr": {"k": "packed", "d": d, "dims": dims, "raw": [rng.randrange(256) for _ in range(ln)]}})
+        else:
+            d = rng.choice([21, 22, 23])  # element types without a torch mapping
+            edge.append({"edge": "torch", "repr": {"k": "torch", "d": d, "dims": dims, "elems": [rng.randrange(16) for _ in range(n)]}})
+    return edge
+
+
+def make_from_model(ir, m: dict, workdir: str):
+    """Construct the real object an edge-case model description denotes."""
+    import onnx
+    from onnx_ir import serde
+
+    k = m["k"]
+    if k == "proto":
+        tp = onnx.TensorProto()
+        tp.data_type = m["d"]
+        tp.dims.extend(m["dims"])
+        if m["raw"] is not None:
+            tp.raw_data = bytes(m["raw"])
+        tp.int32_data.extend(m["i32"])
+        tp.int64_data.extend(m["i64"])
+        tp.uint64_data.extend(m["u64"])
+        tp.float_data.extend(f32_of_bits(b) for b in m["f32"])
+        tp.double_data.extend(f64_of_bits(b) for b in m["f64"])
+        if m["ext"] is not None:
+            tp.data_location = onnx.TensorProto.EXTERNAL
+            e = tp.external_data.add()
+            e.key, e.value = "location", "nofile.bin"
+            for kk in ("offset", "length"):
+                if m["ext"][kk] is not None:
+                    e = tp.external_data.add()
+                    e.key, e.value = kk, str(m["ext"][kk])
+        return lambda: serde.TensorProtoTensor(tp)
+    if k == "external":
+        fn = "edge.bin"
+        path = os.path.join(workdir, fn)
+        if os.path.exists(path):
+            os.remove(path)
+        if m["file"] is not None:
+            with open(path, "wb") as f:
+                f.write(bytes(m["file"]))
+        return lambda: ir.ExternalTensor(fn, m["offset"], m["length"], ir.DataType(m["d"]), shape=ir.Shape(m["dims"]), name="x", base_dir=workdir)
+    if k == "packed":
+        return lambda: ir.PackedTensor(np.array(m["raw"], dtype=np.uint8), ir.DataType(m["d"]), shape=m["dims"])
+    if k == "torch":
+        import torch
+
+        from onnx_ir import tensor_adapters
+
+        tdt = {21: torch.uint4, 22: torch.int4, 23: torch.float4_e2m1fn_x2}[m["d"]]
+        return lambda: tensor_adapters.TorchTensor(torch.from_numpy(np.array(m["elems"], dtype=np.uint8).reshape(m["dims"])).view(tdt))
+    raise ValueError(k)
+
+
+def work_edge(chunk: list) -> list:
+    import warnings
+
+    warnings.filterwarnings("ignore")
+    import onnx_ir as ir
+
+    recs = []
+    with tempfile.TemporaryDirectory(prefix="c04-") as workdir:
+        for e in chunk:
+            m = e["repr"]
+            if m["k"] == "torch" and not torch_available():
+                continue
+            try:
+                make = make_from_model(ir, m, workdir)
+            except Exception as ex:  # protobuf rejected the field value: not expressible
+                recs.append({"edge": e, "skip": type(ex).__name__})
+                continue
+            o = observe(make, [], workdir, fresh=True)
+            recs.append({"edge": e, "impl": strip(o)})
+    return recs
+
+
+# --------------------------------------------------------------------------- tables
+
+
+def real_tables(ir) -> dict:
+    from onnx_ir import _enums, tensor_adapters
+
+    def opt(f):
+        try:
+            return f()
+        except TypeError:
+            return None
+
+    per = []
+    for d in ir.DataType:
+        npn = opt(lambda: d.numpy().name)
+        sn = opt(d.short_name)
+        per.append({
+            "code": int(d),
+            "bitwidth": opt(lambda: d.bitwidth),
+            "np_name": npn,
+            "short_name": sn,
+            "from_short": None if sn is None else int(ir.DataType.from_short_name(sn)),
+            "from_np": None if npn is None else int(ir.DataType.from_numpy(d.numpy())),
+            "np_itembytes": 0 if npn is None else int(d.numpy().itemsize),
+            "is_floating_point": d.is_floating_point(),
+            "is_integer": d.is_integer(),
+            "is_signed": d.is_signed(),
+        })
+    tm = []
+    if torch_available():
+        for d in ir.DataType:
+            try:
+                if tensor_adapters.from_torch_dtype(tensor_adapters.to_torch_dtype(d)) == d:
+                    tm.append(int(d))
+            except Exception:
+                pass
+    return {
+        "members": [{"code": int(d), "name": d.name} for d in ir.DataType],
+        "bitwidth": [[int(k), v] for k, v in _enums._BITWIDTH_MAP.items()],
+        "np": [[k.name, int(v)] for k, v in _enums._NP_TYPE_TO_DATA_TYPE.items()],
+        "np_itemsize": [[k.name, int(k.itemsize)] for k in _enums._NP_TYPE_TO_DATA_TYPE],
+        "short": [[int(k), v] for k, v in _enums._DATA_TYPE_TO_SHORT_NAME.items()],
+        "per_type": per,
+        "torch_mapped": tm if torch_available() else None,
+    }
+
+
+def check_tables(ctx: Ctx, ir) -> None:
+    import onnx
+
+    real = real_tables(ir)
+    model = lean_batch_parallel([{"m": "trepr.tables"}])[0]
+    for key in ("members", "bitwidth", "np", "np_itemsize", "short", "per_type", "torch_mapped"):
+        if real[key] is None:
+            continue
+        ctx.case(["table", key], nontrivial=True, sample={"table": key, "entries": len(real[key])}, kind="table")
+        if model.get(key) != real[key]:
+            diff = [(a, b) for a, b in itertools.zip_longest(model.get(key) or [], real[key]) if a != b][:3]
+            ctx.disagree(f"element-type table '{key}': Lean literal != _enums", {"table": key}, diff, None)
+    ctx.exhaustive_scopes.append("element-type tables: every entry of _BITWIDTH_MAP, _NP_TYPE_TO_DATA_TYPE, _DATA_TYPE_TO_SHORT_NAME, "
+                                 "the 27 enum members, is_floating_point/is_integer/is_signed and the torch dtype map")
+    # oracle on the real tables (independent of the model)
+    shorts = set()
+    ref = dict(onnx.TensorProto.DataType.items())
+    for d in ir.DataType:
+        if ref.get(d.name) != int(d):
+            ctx.fail(f"tables.member:{d.name}", "enum member differs from onnx.TensorProto.DataType", {"d": d.name})
+        if d.name in ("UNDEFINED", "STRING"):
+            continue
+        if d.itemsize * 8 != d.bitwidth:
+            ctx.fail(f"tables.itemsize:{d.name}", "itemsize*8 != bitwidth", {"d": d.name})
+        npd = d.numpy()
+        if ir.DataType.from_numpy(npd) != d:
+            ctx.fail(f"tables.numpy:{d.name}", "from_numpy(numpy()) != identity", {"d": d.name})
+        want = d.bitwidth // 8 if d.bitwidth >= 8 else 1
+        if npd.itemsize != want:
+            ctx.fail(f"tables.npitemsize:{d.name}", "numpy itemsize inconsistent with bitwidth", {"d": d.name})
+        if ir.DataType.from_short_name(d.short_name()) != d or d.short_name() in shorts:
+            ctx.fail(f"tables.short:{d.name}", "short names not invertible", {"d": d.name})
+        shorts.add(d.short_name())
+        try:
+            if onnx.helper.tensor_dtype_to_np_dtype(int(d)) != npd:
+                ctx.fail(f"tables.onnxnp:{d.name}", "numpy type differs from onnx.helper.tensor_dtype_to_np_dtype", {"d": d.name})
+        except Exception:
+            ctx.count("tables.onnx-helper-unknown-type")
+    for d in ir.DataType:  # the remaining two members
+        if ir.DataType.from_short_name(d.short_name()) != d:
+            ctx.fail(f"tables.short:{d.name}", "short names not invertible", {"d": d.name})
+
+
+# --------------------------------------------------------------------------- pack/unpack functions
+
+
+def check_pack_functions(ctx: Ctx) -> None:
     from onnx_ir import _type_casting as tc
 
-    ctx.rule = (
-        "exhaustive nibble/crumb sequences up to a length bound + random longer ones; a case is "
-        "non-trivial when it has >= 1 element; distinct by (function, input)"
-    )
     reqs, impls, cases = [], [], []
     max4 = ctx.pick(3, 4)
     for n in range(0, max4 + 1):
@@ -42,10 +901,10 @@ def run(ctx: Ctx) -> None:
             packed = tc.pack_4bitx2(arr)
             reqs.append({"m": "pack.pack4", "xs": xs})
             impls.append(packed.tolist())
-            cases.append(("pack4", xs))
+            cases.append(("pack4", xs, n))
             reqs.append({"m": "pack.unpack4", "bs": packed.tolist(), "n": n})
             impls.append(tc.unpack_4bitx2(packed.copy(), [n]).ravel().tolist())
-            cases.append(("unpack4", xs))
+            cases.append(("unpack4", xs, n))
     ctx.exhaustive_scopes.append(f"pack4/unpack4: all nibble sequences of length <= {max4}")
     max2 = ctx.pick(5, 7)
     for n in range(0, max2 + 1):
@@ -55,12 +914,11 @@ def run(ctx: Ctx) -> None:
             packed = tc.pack_2bitx4(arr)
             reqs.append({"m": "pack.pack2", "xs": xs})
             impls.append(packed.tolist())
-            cases.append(("pack2", xs))
+            cases.append(("pack2", xs, n))
             reqs.append({"m": "pack.unpack2", "bs": packed.tolist(), "n": n})
             impls.append(tc.unpack_2bitx4(packed.copy(), [n]).ravel().tolist())
-            cases.append(("unpack2", xs))
+            cases.append(("unpack2", xs, n))
     ctx.exhaustive_scopes.append(f"pack2/unpack2: all crumb sequences of length <= {max2}")
-    # random: arbitrary uint8 contents (masking), longer lengths
     for _ in range(ctx.pick(500, 5000)):
         n = ctx.rng.randrange(0, 40)
         xs = [ctx.rng.randrange(256) for _ in range(n)]
@@ -68,13 +926,25 @@ def run(ctx: Ctx) -> None:
         for name, fn in (("pack4", tc.pack_4bitx2), ("pack2", tc.pack_2bitx4)):
             reqs.append({"m": f"pack.{name}", "xs": xs})
             impls.append(fn(arr).tolist())
-            cases.append((name + "-rand", xs))
+            cases.append((name + "-rand", xs, n))
+    # arbitrary buffers against arbitrary element counts (resize / drop-padding rules), and nbytes
+    for _ in range(ctx.pick(1500, 15000)):
+        nb = ctx.rng.randrange(0, 9)
+        bs = [ctx.rng.randrange(256) for _ in range(nb)]
+        n = ctx.rng.choice([2 * nb, 2 * nb - 1, 4 * nb, 4 * nb - 1, 4 * nb - 3, ctx.rng.randrange(0, 40)])
+        n = max(n, 0)
+        for name, fn in (("unpack4", tc.unpack_4bitx2), ("unpack2", tc.unpack_2bitx4)):
+            reqs.append({"m": f"pack.{name}", "bs": bs, "n": n})
+            try:
+                impls.append(fn(np.array(bs, dtype=np.uint8), [n]).ravel().tolist())
+            except Exception:
+                impls.append("raised")
+            cases.append((name + "-any", bs, n))
     outs = lean_batch_parallel(reqs)
-    for (name, xs), impl, out in zip(cases, impls, outs):
-        ctx.case([name, xs], nontrivial=len(xs) > 0, fn=name.split("-")[0], length=min(len(xs), 8))
+    for (name, xs, n), impl, out in zip(cases, impls, outs):
+        ctx.case([name, xs, n], nontrivial=len(xs) > 0, fn=name, length=min(len(xs), 8))
         if out.get("r") != impl:
-            ctx.disagree(f"{name} model != implementation", {"fn": name, "xs": xs}, out, impl)
-        # oracle (the property itself): round trip returns masked elements, length = nbytes
+            ctx.disagree(f"{name} model != implementation", {"fn": name, "xs": xs, "n": n}, out, impl)
         if name == "unpack4" and impl != [x % 16 for x in xs]:
             ctx.fail("unpack4(pack4)", "4-bit round trip loses elements", {"xs": xs, "got": impl})
         if name == "unpack2" and impl != [x % 4 for x in xs]:
@@ -85,5 +955,153 @@ def run(ctx: Ctx) -> None:
             ctx.fail("pack2-len", "packed length != nbytes", {"xs": xs, "got": impl})
 
 
+# --------------------------------------------------------------------------- run
+
+
+def known_sig(ctx: Ctx, sig: str) -> bool:
+    return any(k["property"] == ctx.prop and re.fullmatch(k["signature"], sig) for k in ctx._known)
+
+
+def compare_obs(model_obs: list[dict], impl: dict, dests: list[str], reqs: list[dict]) -> list:
+    """[(observable, model, impl)] differences between canonical model output and implementation."""
+    diffs = []
+    if "_ctor" in impl:
+        m = canon_model(model_obs[0])
+        for k in ("numpy", "tobytes"):
+            if m[k] != "raised":
+                diffs.append((k, m[k], "raised(constructor)"))
+        if not m["tofile"]["raised"]:
+            diffs.append(("tofile", m["tofile"], "raised(constructor)"))
+        return diffs
+    m = canon_model(model_obs[0])
+    for k in ("dtype", "shape", "nbytes", "numpy", "tobytes", "tofile", "serialize"):
+        if m[k] != impl[k]:
+            diffs.append((k, m[k], impl[k]))
+    for mo, dk, rq in zip(model_obs, dests, reqs):
+        md = mo.get("dest")
+        if isinstance(md, dict) and "raised" in md and len(md) == 1:
+            md = {"img": rq["dest"]["img"], "pos": rq["dest"]["pos"], "raised": True}
+        if md != impl["dest"][dk]:
+            diffs.append(("dest", {dk: md}, {dk: impl["dest"][dk]}))
+    return diffs
+
+
+def process_records(ctx: Ctx, recs: list, outs_iter) -> None:
+    import onnx_ir as ir
+
+    for rec in recs:
+        item, name = rec["item"], rec["name"]
+        d = ir.DataType(item["d"])
+        model_obs = [next(outs_iter) for _ in rec["reqs"]]
+        case = {"d": item["d"], "dims": item["dims"], "xs": item["xs"], "idx": item["idx"], "repr": name}
+        ctx.case(
+            [name, item["d"], item["dims"], item["xs"], rec["dests"]],
+            nontrivial=len(item["xs"]) > 0,
+            sample={"dtype": d.name, "dims": item["dims"], "bits": item["xs"][:4], "representation": name, "destinations": rec["dests"]},
+            dtype=d.name,
+            representation=kind_of(name).split(">")[-1] + (":" + name.split(":")[1].split("-")[0] if name.startswith("proto:") else ""),
+            lazy=name.startswith("lazy>"),
+            shape=str(item["dims"]),
+        )
+        for dk in rec["dests"]:
+            ctx.count(f"destination={dk}")
+        known_obs = set()
+        for sig, obs, what in rec["fails"]:
+            if known_sig(ctx, sig):
+                known_obs.add(obs)
+            ctx.fail(sig, what, case)
+        for obs, m, i in compare_obs(model_obs, rec["impl"], rec["dests"], rec["reqs"]):
+            if obs in known_obs:
+                ctx.count("disagreements-explained-by-known-finding")
+                continue
+            ctx.disagree(f"{name} {d.name}{item['dims']}: {obs} model != implementation", case, m, i)
+        rt = rec["rt"]
+        if rt is not None:
+            mo = next(outs_iter)
+            ctx.case(["roundtrip", name, item["d"], item["dims"], item["xs"]], nontrivial=len(item["xs"]) > 0, representation="deserialize(serialize)")
+            known_obs = set()
+            for sig, obs, what in rt["fails"]:
+                if known_sig(ctx, sig):
+                    known_obs.add(obs)
+                ctx.fail(sig, what, case)
+            if isinstance(mo, dict) and set(mo) == {"raised"}:
+                if "_ctor" not in rt["impl"]:
+                    ctx.disagree(f"deserialize(serialize({name})): model raised", case, mo, "ok")
+            else:
+                for obs, m, i in compare_obs([mo], rt["impl"], [], []):
+                    if obs in known_obs:
+                        continue
+                    ctx.disagree(f"deserialize(serialize({name})) {d.name}{item['dims']}: {obs} model != implementation", case, m, i)
+
+
+def run_items(ctx: Ctx, items: list) -> None:
+    for i, it in enumerate(items):
+        it.setdefault("idx", i)
+    all_recs = [r for recs in pmap(work_logical, items) for r in recs]
+    reqs = []
+    for rec in all_recs:
+        reqs.extend(rec["reqs"])
+        if rec["rt"] is not None:
+            reqs.append(rec["rt"]["req"])
+    outs = lean_batch_parallel(reqs)
+    process_records(ctx, all_recs, iter(outs))
+
+
+def run(ctx: Ctx) -> None:
+    import warnings
+
+    warnings.filterwarnings("ignore")
+    import onnx_ir as ir
+
+    ctx.rule = (
+        "a case = (representation, element type, shape, element bit patterns, destinations); non-trivial when it has "
+        ">= 1 element; distinct by that tuple. Exhaustive parts: element-type tables; every bit pattern of every <= 8-bit "
+        "type placed in every representation kind; nibble/crumb sequences up to a length bound for pack/unpack"
+    )
+    ctx.notes.append("torch adapter " + ("covered (torch importable)" if torch_available() else "NOT covered: torch not importable"))
+    # corpus first
+    corpus = [c for c in load_corpus("C04") if "d" in c]
+    if corpus:
+        run_items(ctx, [dict(c) for c in corpus])
+        ctx.count("corpus_cases", len(corpus))
+    check_tables(ctx, ir)
+    check_pack_functions(ctx)
+    items = gen_logical(ctx, ir)
+    run_items(ctx, items)
+    ctx.exhaustive_scopes.append("all 2^w bit patterns of every element type with w <= 8 (BOOL: 0/1), through every representation kind")
+    # edge / illegal stream: model vs implementation only
+    edge = gen_edge(ctx, ir)
+    chunks = [edge[i : i + 100] for i in range(0, len(edge), 100)]
+    erecs = [r for rs in pmap(work_edge, chunks) for r in rs]
+    live = [r for r in erecs if "impl" in r]
+    outs = lean_batch_parallel([{"m": "trepr.obs", "repr": r["edge"]["repr"]} for r in live])
+    for r, mo in zip(live, outs):
+        m = r["edge"]["repr"]
+        impl = r["impl"]
+        ctx.case(["edge", m], nontrivial=True, representation="edge:" + m["k"],
+                 edge_outcome=("ctor-raised" if "_ctor" in impl else "numpy-raised" if impl.get("numpy") == "raised" else "ok"))
+        if "err" in mo:
+            ctx.disagree("edge: model rejected the request", m, mo, None)
+            continue
+        for obs, mm, ii in compare_obs([mo], impl, [], []):
+            if obs == "serialize" and m["k"] == "proto":
+                continue  # metadata/name are copied verbatim; covered by the legal stream
+            if m["k"] == "external" and ir.DataType(m["d"]).bitwidth == 2 and obs in ("numpy", "tobytes") and known_sig(ctx, f"external.{obs}:bw2:n>0:raised") and ii == "raised":
+                ctx.count("disagreements-explained-by-known-finding")
+                continue
+            if m["k"] == "external" and obs == "tobytes" and _prod(m["dims"]) == 0 and known_sig(ctx, "external.tobytes:bw8:size0:raised") and ii == "raised":
+                ctx.count("disagreements-explained-by-known-finding")
+                continue
+            if m["k"] == "packed" and ir.DataType(m["d"]).bitwidth == 2 and obs == "numpy" and known_sig(ctx, "packed.numpy:bw2:n>0:wrong-bits"):
+                ctx.count("disagreements-explained-by-known-finding")
+                continue
+            ctx.disagree(f"edge {m['k']}: {obs} model != implementation", m, mm, ii)
+    ctx.count("edge_skipped_inexpressible", len(erecs) - len(live))
+
+
 def replay(ctx: Ctx, obj: dict) -> None:
-    run(ctx)
+    case = obj.get("case") or obj
+    if isinstance(case, dict) and "d" in case and "dims" in case and "xs" in case:
+        run_items(ctx, [{"d": case["d"], "dims": case["dims"], "xs": case["xs"], "idx": case.get("idx", 0)}])
+    else:
+        run(ctx)
